@@ -1,20 +1,33 @@
 (* Properties_C04.v — ONLY the property theorems for C04 (attachments form a forest).  Model: Model/StreamModel.v *)
-From GR Require Import Base.Bytes Model.StreamModel Proofs.StreamProofs.
+From GR Require Import Base.Bytes Model.StreamModel Proofs.StreamProofs Proofs.ForestProofs.
 From Coq Require Import ZArith.
 Local Open Scope Z_scope.
 
-(* PARTIAL.  Proved: attaching, detaching, copying and freeing never change which slots the segment's stream holds
-   or their order beyond the stream operations themselves (the stream stays repetition-free through them).
-   NOT yet proved: acyclicity of the parent relation and consistency of the child chains under arbitrary attach / re-attach /
-   copy sequences (the argument is the foundOther test + the no-parent/no-child precondition of PUT_COPY).  The model
-   computes parents and child chains through all these operations (do_attach mirrors the count < 100 / foundOther decision and
-   the decision is compared with the implementation's) and they are compared on every snapshot. *)
+(* The parent relation never closes a cycle: for ANY sequence of appends, insertions, deletions, associations, reversals,
+   associateChars, attachments (accepted or refused, re-attachments, attempts to attach an ancestor to its descendant) and
+   detachments, no slot is its own n-th ancestor for any n > 0.  Slot::setAttr(gr_slatAttTo) refuses exactly the attachments
+   that would close a cycle (the foundOther test over a parent chain that ended before its bound).
+   PARTIAL: the copying operations (PUT_COPY, TEMP_COPY, freeSlot) are not covered by this theorem — PUT_COPY is safe only under
+   its no-parent / no-child precondition, which needs the child-chain consistency invariant, not proved; the model computes
+   parents and child chains through those too and they are compared with the implementation on every snapshot. *)
+Theorem C04_parents_acyclic : forall ops n rtl st, Forall forest_op ops -> run_ops (st0 n rtl) ops = Ok st -> acyclic (st_attr st).
+Proof. intros ops n rtl st Hf H. exact (forest_ops_keep_acyclic ops (st0 n rtl) st Hf (st0_acyclic n rtl) H). Qed.
+Print Assumptions C04_parents_acyclic.
+
+(* the single step: an accepted attachment keeps the relation acyclic; a refused one changes nothing *)
+Theorem C04_attach_keeps_acyclic : forall st s other acc st', acyclic (st_attr st) -> do_attach st s other acc = Ok st' -> acyclic (st_attr st').
+Proof. exact attach_keeps_acyclic. Qed.
+Print Assumptions C04_attach_keeps_acyclic.
+
+(* attaching, detaching, copying and freeing never change which slots the segment's stream holds or their order beyond the
+   stream operations themselves (the stream stays repetition-free through them) *)
 Theorem C04_attachment_ops_keep_stream_partial : forall st o st', NoDup (st_stream st) ->
   (match o with OAttach _ _ _ | ODetach _ | OPutCopy _ _ | OTempCopy _ _ | OFree _ => True | _ => False end) ->
   apply_op st o = Ok st' -> NoDup (st_stream st').
 Proof. intros st o st' H _ E. exact (apply_op_wf_stream st o st' H E). Qed.
 Print Assumptions C04_attachment_ops_keep_stream_partial.
 
+(* non-vacuity: 2 attached to 1 attached to 0; attaching 0 to 2 is refused (it would close the cycle 0 -> 2 -> 1 -> 0) *)
 Example C04_example :
   match run_ops (st0 3 false) [OAppend 0%N 0; OAppend 1%N 1; OAppend 2%N 2; OAttach 1%N 0%N true; OAttach 2%N 1%N true; OAttach 0%N 2%N false] with
   | Ok st => match aget (st_attr st) 2%N with Some a => a_par a = Some 1%N | None => False end | Err _ => False end.
